@@ -794,7 +794,9 @@ def _line_map(base, cur):
             if tag == 'equal':
                 for d in range(i2 - i1):
                     bmap[bi_list[i1 + d]] = ('eq', ci_list[j1 + d])
-            elif tag == 'replace' and (i2 - i1) == (j2 - j1):
+            elif tag == 'replace' and (i2 - i1) == (j2 - j1) and all(
+                    difflib.SequenceMatcher(a=bs[bi_list[i1 + d]], b=cs[ci_list[j1 + d]], autojunk=False).ratio() >= 0.72 for d in range(i2 - i1)):
+                # changed one-for-one (each line is recognisably the edited form of the line it replaces)
                 for d in range(i2 - i1):
                     bmap[bi_list[i1 + d]] = ('mod', ci_list[j1 + d])
                 changed += i2 - i1
